@@ -10,7 +10,7 @@
    flight, no live waker in a core that still exists, and - the cycle - no live waker registered with the input). *)
 From stdpp Require Import list numbers option.
 From RecordUpdate Require Import RecordUpdate.
-From Pipe Require Import Model Base Notify Terminal.
+From Pipe Require Import Model Base Notify Closed Terminal.
 
 Definition pc_pre (pc : jpc) : bool := match pc with JStart | JFull => true | _ => false end.
 (* a live waker registered with the input is also in notify_stream_closed, or the dropping consumer is calling it *)
@@ -40,14 +40,19 @@ Section Drop.
   Definition inv_drop (s : state) : Prop :=
     (dropped s = true -> s.(closed) = true /\ s.(nsc) = None) /\
     inv16 s /\
-    (match s.(cst) with CDrop2 | CGone => s.(chute) = true \/ s.(strong_held) = false | _ => True end).
+    (match s.(cst) with
+     | CDrop2 | CGone => s.(chute) = ChQueued \/ s.(strong_held) = false
+     | CDrop1 => if F.(f_drop_wakes_before_dispose) then True else s.(chute) = ChQueued \/ s.(strong_held) = false
+     | _ => True
+     end) /\
+    (ch_sync s.(chute) = true -> s.(strong_held) = false).
 
-  Lemma inv_drop_init inputs ext : inv_drop (init F inputs ext).
+  Lemma inv_drop_init inputs sl ext : inv_drop (init_slow F inputs sl ext).
   Proof. unfold inv_drop, inv16, inp_ok; cbn. split_and!; try done. by right. Qed.
 
   Lemma step_inv_drop s a s' : inv_shape s -> inv_drop s -> step F f s a = Some s' -> inv_drop s'.
   Proof.
-    intros Hsh (D1 & D3 & D4) Hs. step_cases Hs.
+    intros Hsh (D1 & D3 & D4 & D5) Hs. step_cases Hs.
     all: unfold inv_drop, inv16, inp_ok, pend_ok, dropped, inv_shape in *; cbn in *.
     all: rewrite ?Hrecheck in *; cbn in *.
     all: split_and!; try done.
@@ -58,6 +63,9 @@ Section Drop.
     all: try tauto.
     all: try (destruct cst; try done; by right).
     all: try (split; [done|destruct running as [[? []]|]; done]).
+    all: try (destruct (f_drop_wakes_before_dispose F); first [done | by left | by right | tauto]).
+    all: try (destruct cst; try done; destruct (f_drop_wakes_before_dispose F); try done; by right).
+    all: try (specialize (D5 eq_refl); destruct cst; try done; destruct (f_drop_wakes_before_dispose F); try done; by right).
     all: intros Hn; try specialize (D3 Hn); destruct inp_waker as [k|]; [|done]; intros Hl.
     all: try (apply live_in_cons in Hl as [Hl Hne]); try specialize (D3 Hl); subst.
     all: try (by left).
@@ -66,33 +74,165 @@ Section Drop.
     all: injection D3 as ->; congruence.
   Qed.
 
-  Lemma reach_inv_drop inputs ext tr s : run F f (init F inputs ext) tr = Some s -> inv_shape s /\ inv_drop s.
+  Lemma reach_inv_drop inputs sl ext tr s : run F f (init_slow F inputs sl ext) tr = Some s -> inv_shape s /\ inv_drop s.
   Proof.
     revert tr s. apply run_invariant_all.
     - split; [apply inv_shape_init|apply inv_drop_init].
     - intros s a s' [H1 H2] Hs. split; [eapply step_inv_shape; eauto|eapply step_inv_drop; eauto].
   Qed.
 
-  (* C16 (for the repaired Pending arm) *)
-  Theorem drop_shuts_down inputs ext tr s :
-    run F f (init F inputs ext) tr = Some s ->
-    dropped s = true -> terminal_silent F f s ->
-    s.(strong_held) = false /\ released s = true /\ s.(cst) = CGone.
+  (* ---------- reference counting of the Arc<Desync>: the object is freed exactly once ---------- *)
+  Definition b2n (b : bool) : nat := if b then 1 else 0.
+  Definition syncers (s : state) : nat :=
+    b2n (is_sync s.(cwk)) + b2n (is_sync s.(ewk)) + b2n (ch_sync s.(chute)) + b2n s.(xsync).
+  (* exactly one of: a strong reference exists / one thread is inside Desync::drop / the object has been freed *)
+  Definition inv_ref (s : state) : Prop := b2n (desync_alive s) + syncers s + s.(freed) = 1.
+
+  Lemma inv_ref_init inputs sl ext : inv_ref (init_slow F inputs sl ext).
+  Proof. unfold inv_ref, syncers, desync_alive; cbn. done. Qed.
+
+  (* on_drop is handed to the disposal queue exactly once, by Drop::drop: before that the chute is idle *)
+  Definition inv_chute (s : state) : Prop :=
+    match s.(cst) with
+    | CDrop2 | CGone => True
+    | CDrop1 => if F.(f_drop_wakes_before_dispose) then s.(chute) = ChIdle /\ s.(strong_held) = true else True
+    | _ => s.(chute) = ChIdle /\ s.(strong_held) = true
+    end /\
+    (* while on_drop sits in the disposal queue the pipe's Arc<Desync> exists *)
+    (s.(chute) = ChQueued -> s.(strong_held) = true).
+  Lemma inv_chute_init inputs sl ext : inv_chute (init_slow F inputs sl ext).
+  Proof. done. Qed.
+  Lemma step_inv_chute s a s' : inv_chute s -> step F f s a = Some s' -> inv_chute s'.
   Proof.
-    intros Hr Hd Hterm. destruct (reach_inv_drop _ _ _ _ Hr) as (Hsh & D1 & D3 & D4).
-    destruct (cons_disabled F f s (Hterm ACons eq_refl eq_refl)) as [Hcw Hcst].
+    intros [H H'] Hs. step_cases Hs.
+    all: unfold inv_chute in *; cbn in *.
+    all: try (split; [exact H|exact H']); try done.
+    all: split; try done; try exact H; try exact H'.
+    all: try (destruct (f_drop_wakes_before_dispose F); first [done|tauto]).
+    all: try (destruct cst; try done; destruct (f_drop_wakes_before_dispose F); try done; destruct H; done).
+  Qed.
+
+  Lemma step_inv_ref s a s' : inv_shape s -> inv_chute s -> inv_ref s -> step F f s a = Some s' -> inv_ref s'.
+  Proof.
+    intros Hsh [Hch Hq] H Hs. step_cases Hs.
+    all: unfold inv_ref, syncers, desync_alive, inv_shape, inv_chute in *; cbn in *.
+    all: try exact H.
+    all: bool_hyps; subst; cbn in *.
+    all: try exact H.
+    all: repeat match goal with |- context [wk_of ?o] => destruct o; cbn in * end.
+    all: try exact H.
+    all: try match goal with E : f_drop_wakes_before_dispose _ = _ |- _ => rewrite E in * end.
+    all: try (specialize (Hq eq_refl); subst).
+    all: try match type of Hch with _ /\ _ => destruct Hch as [-> ->] end; cbn in *.
+    all: try exact H.
+    all: revert H.
+    all: repeat match goal with
+         | |- context [is_enq ?w] => is_var w; destruct w; cbn in *
+         | |- context [is_sync ?w] => is_var w; destruct w; cbn in *
+         | |- context [ch_sync ?c] => is_var c; destruct c; cbn in *
+         end.
+    all: try done; try lia.
+    all: repeat match goal with
+         | |- context [orb ?b _] => is_var b; destruct b; cbn in *
+         | |- context [orb _ ?b] => is_var b; destruct b; cbn in *
+         | |- context [b2n ?b] => is_var b; destruct b; cbn in *
+         end.
+    all: try done; try lia; try congruence.
+  Qed.
+
+  (* the object is never freed twice *)
+  Lemma reach_inv_ref inputs sl ext tr s :
+    run F f (init_slow F inputs sl ext) tr = Some s -> inv_shape s /\ inv_chute s /\ inv_ref s.
+  Proof.
+    revert tr s. apply run_invariant_all.
+    - split_and!; [apply inv_shape_init|apply inv_chute_init|apply inv_ref_init].
+    - intros s a s' (H1 & H2 & H3) Hs. split_and!;
+        [eapply step_inv_shape; eauto|eapply step_inv_chute; eauto|eapply step_inv_ref; eauto].
+  Qed.
+
+  Theorem freed_at_most_once inputs sl ext tr s :
+    run F f (init_slow F inputs sl ext) tr = Some s -> s.(freed) <= 1.
+  Proof. intros Hr. destruct (reach_inv_ref _ _ _ _ _ Hr) as (_ & _ & H). unfold inv_ref in H. lia. Qed.
+
+  (* ---------- with the code's order (wake notify_stream_closed, THEN hand on_drop to the disposal queue) the thread
+     inside Drop::drop never becomes the last owner of the Desync: it never runs the final sync under the core lock ---------- *)
+  Context (Horder : F.(f_drop_wakes_before_dispose) = true).
+
+  Lemma step_no_sync_in_drop s a s' :
+    inv_shape s -> inv_chute s -> is_sync s.(cwk) = false -> step F f s a = Some s' -> is_sync s'.(cwk) = false.
+  Proof.
+    intros Hsh [Hch _] H Hs. step_cases Hs.
+    all: unfold inv_shape, inv_chute in *; cbn in *.
+    all: rewrite ?Horder in *.
+    all: try exact H; try done.
+    all: try (destruct bp; done); try (destruct nsc; done).
+    all: bool_hyps; subst.
+    all: destruct cst; try done; destruct Hch; congruence.
+  Qed.
+
+  Lemma reach_no_sync_in_drop inputs sl ext tr s :
+    run F f (init_slow F inputs sl ext) tr = Some s -> is_sync s.(cwk) = false.
+  Proof.
+    intros Hr. assert (H : inv_shape s /\ inv_chute s /\ is_sync (cwk s) = false); [|tauto].
+    revert tr s Hr. apply run_invariant_all.
+    - split_and!; [apply inv_shape_init|apply inv_chute_init|done].
+    - intros s a s' (H1 & H2 & H3) Hs. split_and!;
+        [eapply step_inv_shape; eauto|eapply step_inv_chute; eauto|eapply step_no_sync_in_drop; eauto].
+  Qed.
+
+  (* what a terminal state with a silent input looks like after the drop *)
+  Lemma terminal_after_drop inputs sl ext tr s :
+    run F f (init_slow F inputs sl ext) tr = Some s ->
+    dropped s = true -> terminal_silent F f s ->
+    s.(cst) = CGone /\ s.(cwk) = WIdle /\ s.(ewk) = WIdle /\ s.(running) = None /\ s.(jobq) = [] /\
+    s.(chute) = ChIdle /\ s.(xsync) = false /\ s.(strong_held) = false.
+  Proof.
+    intros Hr Hd Hterm. destruct (reach_inv_drop _ _ _ _ _ Hr) as (Hsh & D1 & D3 & D4 & D5).
+    pose proof (reach_no_sync_in_drop _ _ _ _ _ Hr) as Hns.
+    destruct (cons_disabled F f s (Hterm ACons eq_refl eq_refl)) as [[Hcw Hcst]|[Hcw _]]; [|rewrite Hcw in Hns; done].
     assert (Hg : cst s = CGone) by (unfold dropped in Hd; destruct (cst s); done).
     assert (Hlk : core_locked s = false) by (unfold core_locked; rewrite Hg; done).
     destruct (prod_disabled F f s (Hterm AProd eq_refl eq_refl) Hlk) as [Hrun Hq].
-    pose proof (env_disabled F f s (Hterm AEnv eq_refl eq_refl)) as Hew.
-    pose proof (Hterm ADispose eq_refl eq_refl) as Hdis. cbn in Hdis.
-    destruct (chute s) eqn:Ech; [done|]. rewrite Hg in D4.
-    split_and!; [destruct D4; done| |done].
+    assert (Hdr : drained s = true) by (unfold drained; rewrite Hq, Hrun; done).
+    assert (Hew : ewk s = WIdle).
+    { destruct (env_disabled F f s (Hterm AEnv eq_refl eq_refl)) as [?|[_ ?]]; [done|congruence]. }
+    pose proof (Hterm ADispose eq_refl eq_refl) as Hdis. cbn in Hdis. rewrite Hdr in Hdis.
+    pose proof (Hterm AExtSync eq_refl eq_refl) as Hxs. cbn in Hxs. rewrite Hdr in Hxs.
+    destruct (chute s) eqn:Ech; try done. rewrite Hg in D4.
+    destruct (xsync s) eqn:Ex; [done|].
+    split_and!; try done. destruct D4; done.
+  Qed.
+
+  (* C16 (repaired Pending arm, the code's order in Drop::drop) *)
+  Theorem drop_shuts_down inputs sl ext tr s :
+    run F f (init_slow F inputs sl ext) tr = Some s ->
+    dropped s = true -> terminal_silent F f s ->
+    s.(strong_held) = false /\ released s = true /\ s.(cst) = CGone.
+  Proof.
+    intros Hr Hd Hterm.
+    destruct (terminal_after_drop _ _ _ _ _ Hr Hd Hterm) as (Hg & Hcw & Hew & Hrun & Hq & _ & _ & Hsh').
+    destruct (reach_inv_drop _ _ _ _ _ Hr) as (Hsh & D1 & D3 & D4 & D5).
+    split_and!; [done| |done].
     unfold released, ctx_referenced, core_gone, wk_tok, live_opt. rewrite Hq, Hrun, Hcw, Hew, Hg. cbn.
     destruct (poll_fn s) eqn:Ep; [cbn|done].
     destruct D3 as [D3|[D3 _]]; [congruence|]. rewrite Hrun in D3. specialize (D3 eq_refl). unfold inp_ok in D3.
     destruct (inp_waker s) as [k|]; [cbn|done].
     destruct (live_in (wtaken s) k) eqn:El; [|done].
     destruct (D1 Hd) as [_ Hnsc]. destruct (D3 eq_refl) as [H|H]; congruence.
+  Qed.
+
+  (* C16, the pipe as last owner: once nobody else owns the Desync, every terminal state after the drop has freed the object
+     (exactly once, see freed_at_most_once), nobody is left inside Desync::drop, and the core lock is free ([cst = CGone];
+     the dropping thread is not blocked inside its critical section) *)
+  Theorem last_owner_drop inputs sl ext tr s :
+    run F f (init_slow F inputs sl ext) tr = Some s ->
+    dropped s = true -> terminal_silent F f s -> s.(ext_owner) = false ->
+    s.(freed) = 1 /\ s.(cst) = CGone /\ core_locked s = false /\ syncers s = 0 /\ desync_alive s = false.
+  Proof.
+    intros Hr Hd Hterm Hext.
+    destruct (terminal_after_drop _ _ _ _ _ Hr Hd Hterm) as (Hg & Hcw & Hew & Hrun & Hq & Hch & Hx & Hsh').
+    destruct (reach_inv_ref _ _ _ _ _ Hr) as (_ & _ & Href).
+    unfold inv_ref, syncers, desync_alive, core_locked in *.
+    rewrite Hcw, Hew, Hch, Hx, Hsh', Hext, Hg in *. cbn in *. split_and!; try done; lia.
   Qed.
 End Drop.
